@@ -196,6 +196,10 @@ func (s *backendStorageEtcd) EtcdKeyUpdated(client *EtcdClient, key string, data
 	s.mu.Lock()
 	defer s.mu.Unlock()
 
+	if prevInfo, found := s.keyInfos[key]; found && prevInfo.parsedUrl.Host != host {
+		// The backend was moved to a different host, remove it from the previous one.
+		s.removeBackendLocked(key, prevInfo)
+	}
 	s.keyInfos[key] = &info
 	entries, found := s.backends[host]
 	if !found {
@@ -240,10 +244,16 @@ func (s *backendStorageEtcd) EtcdKeyDeleted(client *EtcdClient, key string, prev
 	}
 
 	delete(s.keyInfos, key)
+	if s.removeBackendLocked(key, info) {
+		s.wakeupForTesting()
+	}
+}
+
+func (s *backendStorageEtcd) removeBackendLocked(key string, info *BackendInformationEtcd) bool {
 	host := info.parsedUrl.Host
 	entries, found := s.backends[host]
 	if !found {
-		return
+		return false
 	}
 
 	log.Printf("Removing backend %s (from %s)", info.Url, key)
@@ -262,7 +272,7 @@ func (s *backendStorageEtcd) EtcdKeyDeleted(client *EtcdClient, key string, prev
 	} else {
 		delete(s.backends, host)
 	}
-	s.wakeupForTesting()
+	return true
 }
 
 func (s *backendStorageEtcd) Close() {
